@@ -274,7 +274,6 @@ func (f *DefaultFanController) UpdateFanSpeed() error {
 func (f *DefaultFanController) RunInitializationSequence() (err error) {
 	fan := f.fan
 	verifTrace(fan.GetId(), "AnalysisBegin")
-	defer verifTrace(fan.GetId(), "AnalysisEnd")
 
 	// the whole sequence (pwm map sweep and rpm curve measurement) must not overlap
 	// with the initialization sequence of another fan
@@ -283,6 +282,7 @@ func (f *DefaultFanController) RunInitializationSequence() (err error) {
 		defer InitializationSequenceMutex.Unlock()
 	}
 	verifTrace(fan.GetId(), "AnalysisStart")
+	defer verifTrace(fan.GetId(), "AnalysisEnd") // runs before the deferred Unlock above
 
 	err1 := f.doComputePwmMap()
 	if err1 != nil {
